@@ -327,7 +327,8 @@ def programAgrees (out : Json) (p : Program) : Except String (Option Bool) := do
       | .error e => throw e
     let res ← strArrField pj "res"
     let needed ← strArrField pj "needed"
-    pure (some (instr = p.instrs && res = p.res.map resStr && needed = neededStrs p.needed))
+    let decOk := match decode p.instrs with | .ok is => is == p.code | .error _ => false
+    pure (some (decOk && instr = p.instrs && res = p.res.map resStr && needed = neededStrs p.needed))
   | _ => pure none
 
 /-! ## The `prog` handler -/
